@@ -6,9 +6,11 @@ package main
 // member ()<S>, of void v and of every tuple or structure made of those is
 // empty. A list of n such elements is its 32-bit count and nothing else, so
 // the count may exceed the number of bytes that follow the list - the one
-// situation in which "an element takes at least one byte" is false. Val(T)
-// never builds it (Sig(D,2) has the empty tuple but no list of it beyond two
-// elements, and nothing after it).
+// situation in which "an element takes at least one byte" is false. Sig x
+// Val only has [()] with one and two elements at the end of the data (and
+// reaches a decoder that compares a count with what is left only through the
+// *bytes.Buffer delivery); this family has the whole class: every zero-width
+// element type, counts on both sides of the number of bytes that follow.
 //
 // Zero-width element types Z (27): Z0 = { (), ()<S>, v }, and the tuples and
 // structures of width 1 and 2 over Z0. Containers: [z] for every z of Z with
@@ -254,15 +256,6 @@ func reportZeroWidth(zc zeroWidthCase, ep entryPoint, dl delivery, clause string
 	}
 }
 
-// zeroWidthElem returns the signature of the zero-width element (or
-// "key value") of the container of a case.
-func zeroWidthElem(c *refmodel.Type) string {
-	if c.Kind == refmodel.Map {
-		return c.Key.String() + " " + c.Elem.String()
-	}
-	return c.Elem.String()
-}
-
 // familyZeroWidth runs the family; it returns its description for the
 // evidence.
 func familyZeroWidth() map[string]interface{} {
@@ -365,7 +358,7 @@ func familyZeroWidth() map[string]interface{} {
 		"element_types": zs, "max_list_count": zeroWidthMaxCount, "map_counts": []int{0, 1},
 		"positions":     []string{"alone", "(c)", "(c)<S,a>", "(cC)", "(cw)", "(cCw)", "(ci)", "(c())", "(ic)", "[c] (2 elements)", "{ic} (1 entry)", "m<c>"},
 		"data_executed": ndata, "data_with_more_entries_than_bytes_after": nbeyond,
-		"excluded":      zeroWidthExcluded, "data_excluded": skipped,
+		"excluded": zeroWidthExcluded, "data_excluded": skipped,
 	}
 }
 
